@@ -1,7 +1,7 @@
 (** The plain rendering is the coloured rendering with the styles removed: both models, transcribed
     from the two branches of every [if color_enabled], denote the same characters. *)
 From Coq Require Import Ascii.
-From Tephra Require Import Render RenderColor.
+From Tephra Require Import MetricsSpec MetricsFacts Source SourceFacts Render RenderTotal RenderColor.
 
 Lemma dens_app a b : dens (a ++ b) = dens a ++ dens b.
 Proof. unfold dens. apply flat_map_app. Qed.
@@ -233,4 +233,15 @@ Proof.
   destruct (sds_render_c src (cd_sds cd)) as [b| |] eqn:E; cbn [bind] in H; try discriminate.
   injection H as <-. pose proof (sf_sds _ _ _ E) as Hb.
   destruct (cd_ty cd), (cd_code cd); cbn [mtype_cells_c]; sf; assumption.
+Qed.
+
+(** hence the coloured rendering never fails where the plain one does not: C01 for the colour path *)
+Theorem cd_render_c_total (m : metrics) (Htab : 1 <= tabw m) us (Hwf : wf_units m us) off name msg ty code sds :
+  Forall (fun sd => exists i j named hls, i <= j /\ j <= length us /\
+            sd_new (mksource (ctext m us) name m off) (mkspan (gpos m us off i) (gpos m us off j)) named hls = Ok sd) sds ->
+  exists cells, cd_render_c (mksource (ctext m us) name m off) (mkcd msg ty code sds) = Ok cells.
+Proof.
+  intros H. destruct (cd_render_total m Htab us Hwf off name msg ty code sds H) as [p Ep].
+  pose proof (colour_strip_plain (mksource (ctext m us) name m off) (mkcd msg ty code sds)) as E.
+  rewrite Ep in E. destruct (cd_render_c _ _) as [c| |]; cbn [rmap] in E; try discriminate. eexists. reflexivity.
 Qed.
